@@ -311,6 +311,22 @@ func c09hInterp(c c09hCase) (v kit.Verdict) {
 		if n := sh.last.pass + sh.last.fail; n != 1 {
 			return v.Failf("%s: admitted request reported %d times (pass %d, fail %d): the shedder's in-flight count cannot return to zero", what, n, sh.last.pass, sh.last.fail)
 		}
+		// WHICH report: the statement quantifies over "completions with pass/fail outcomes" and
+		// estimates the capacity from PASSES, so the outcome belongs to the completion, not to
+		// what the middleware remembers of other requests. Three-valued: a request whose handler
+		// returned normally, wrote at most one header and was answered 2xx to the client is a
+		// pass under every reading and must be reported as Pass; every other ending (3xx..5xx,
+		// 1xx+final, header written twice, panic, cancel, time-out) is UNSPECIFIED.
+		if !panicked && rq.Beh != "cancel" && rq.Beh != "timeout" && len(rq.Codes) <= 1 && rec.Code >= 200 && rec.Code <= 299 &&
+			(len(rq.Codes) == 0 || rq.Codes[0] >= 200 && rq.Codes[0] <= 299) {
+			v.Classes = append(v.Classes, "outcome-2xx-must-pass")
+			if i > 0 {
+				v.Classes = append(v.Classes, "outcome-2xx-after-other-requests-through-the-same-handler")
+			}
+			if sh.last.pass != 1 {
+				return v.Failf("%s: the handler returned normally and the client was answered %d, but the request was reported to the shedder as Fail (request %d served by this handler value): a pass is missing from the capacity window", what, rec.Code, i)
+			}
+		}
 		if sh.real != nil {
 			if f, _ := c09hFlying(sh.real); f != 0 {
 				return v.Failf("%s: the real adaptive shedder counts %d requests in flight after the only admitted request has completed", what, f)
